@@ -454,7 +454,21 @@ func Defer[T any](factory func() Observable[T]) Observable[T] {
 func Future[T any](factory func() (T, error)) Observable[T] {
 	return NewUnsafeObservableWithContext(func(ctx context.Context, destination Observer[T]) Teardown {
 		go func() {
-			v, err := factory()
+			var v T
+
+			var err error
+
+			// a panicking factory fails the stream, not the whole process
+			lo.TryCatchWithErrorValue(
+				func() error {
+					v, err = factory()
+					return nil
+				},
+				func(e any) {
+					err = newObservableError(recoverValueToError(e))
+				},
+			)
+
 			if err != nil {
 				destination.ErrorWithContext(ctx, err)
 				return
